@@ -265,9 +265,16 @@ func (g *encGen) timeVal() *encTime {
 	return et
 }
 
-func (g *encGen) durVal() *encDur {
-	r := g.r
-	d := Pick(r, []int64{0, 1, -1, 1e9, 1500 * 1e6, math.MaxInt64, math.MinInt64, 999, -1e6, int64(r.U64() >> 8)})
+// boundaryDurs: every unit boundary of time.Duration.String (ns/µs/ms/s, minutes, hours, the largest hour count), the
+// truncation boundaries of MillisDurationEncoder on both sides of zero, trailing-zero trimming, and the int64 extremes.
+var boundaryDurs = []int64{0, 1, -1, 9, 10, 999, 1000, 1001, 1010, 1100, 999999, 1000000, 1000001, 1500000, 999999999, 1000000000, 1000000001,
+	1500 * 1e6, 1e9 + 1e8, 59999999999, 60 * 1e9, 60*1e9 + 1, 61 * 1e9, 3599999999999, 3600 * 1e9, 3600*1e9 + 1, 3661 * 1e9, 86400 * 1e9,
+	2540400 * 3600 * 1e9, 2540400*3600*1e9 + 10*60*1e9 + 10*1e9, math.MaxInt64, math.MaxInt64 - 1, math.MinInt64, math.MinInt64 + 1,
+	-999, -1000, -999999, -1000000, -1000001, -1500000, -1999999, -2000000, -499999, -500000, -500001, 499999, 500000, 500001, 1999999, 2000000,
+	-1e9, -999999999, -60 * 1e9, -3600 * 1e9, -3661*1e9 - 1, 100 * 1e9, 120 * 1e9, 1e9 + 1e6, 1e9 + 1e3, 7200 * 1e9, 1e6 + 1e3, 1e6 + 100, 1e3 + 100,
+	123456789, 12345678, 1234567, 123456, 12345, 1234, 123456789012, 100000000, 10000000, 1e18, -1e18}
+
+func (g *encGen) durOf(d int64) *encDur {
 	ed := &encDur{Nanos: strconv.FormatInt(d, 10)}
 	if g.rt.EncodeDuration != nil {
 		rec := &subRec{}
@@ -275,6 +282,27 @@ func (g *encGen) durVal() *encDur {
 		ed.V, _ = rec.one()
 	}
 	return ed
+}
+
+func (g *encGen) durVal() *encDur {
+	r := g.r
+	var d int64
+	switch r.Intn(4) {
+	case 0:
+		d = Pick(r, boundaryDurs)
+	case 1: // a boundary ± a small offset
+		d = Pick(r, boundaryDurs)
+		off := int64(r.Intn(5)) - 2
+		if (off > 0 && d <= math.MaxInt64-off) || (off < 0 && d >= math.MinInt64-off) {
+			d += off
+		}
+	default: // every magnitude: random bit length, random sign
+		d = int64(r.U64() >> uint(1+r.Intn(63)))
+		if r.Bool() {
+			d = -d
+		}
+	}
+	return g.durOf(d)
 }
 
 // jsonValue draws a random reflect-encodable value and returns its encoding/json text.
@@ -597,6 +625,9 @@ func (g *encGen) config(console bool) {
 func (g *encGen) entry() encEnt {
 	r := g.r
 	e := encEnt{Level: Pick(r, []int{-1, 0, 1, 2, 3, 4, 5, 0, 0, 6, -2, 127, -128, 42})}
+	if r.Chance(1, 3) {
+		e.Level = r.Intn(256) - 128 // any int8, known or not
+	}
 	if r.Chance(1, 6) {
 		e.Time = encTime{Zero: true, Nanos: "0"}
 	} else {
@@ -616,14 +647,32 @@ func (g *encGen) entry() encEnt {
 		}
 	}
 	if r.Chance(2, 3) {
-		file := Pick(r, []string{"/home/u/go/src/pkg/sub/file.go", "file.go", "", "a/b.go", "/x\"y/z\n.go"})
-		line := Pick(r, []int{0, 1, 42, 1 << 20, -1})
+		file := Pick(r, callerFiles)
+		line := Pick(r, callerLines)
 		fn := Pick(r, []string{"pkg.Func", "", "pkg.(*T).M.func1", "weird\"fn\n"})
 		e.Caller = encCaller{Defined: true, File: hx([]byte(file)), Line: line, Fn: hx([]byte(fn)), Str: hx([]byte(file + ":" + strconv.Itoa(line)))}
 	} else {
 		e.Caller = encCaller{Str: hx([]byte("undefined"))}
+		if r.Chance(1, 3) { // an undefined caller may still carry a position: it must not be shown
+			e.Caller.File, e.Caller.Line = hx([]byte(Pick(r, callerFiles))), Pick(r, callerLines)
+		}
 	}
-	// what the configured sub-encoders append (observed by running the exported functions on a recorder)
+	g.observe(&e)
+	return e
+}
+
+// callerFiles: 0, 1, 2 and many '/'-separated elements, empty elements, Windows-style separators (TrimmedPath splits on
+// '/' only), text needing JSON escapes.
+var callerFiles = []string{"/home/u/go/src/pkg/sub/file.go", "file.go", "", "a/b.go", "/x\"y/z\n.go", "/a.go", "/", "//", "a/", "a//b.go", "/a/b.go",
+	"a/b/c.go", "x/y/z/w/v.go", "C:\\Users\\u\\go\\src\\pkg\\file.go", "C:/Users/u/go/src/pkg/file.go", "dir\\sub/file.go", "a/b\\c/d.go", "/a/b/", "é/ü/ß.go", ":", "a:1/b:2/c:3"}
+var callerLines = []int{0, 1, 42, 1 << 20, -1, 9, 10, 99, 100, -10, math.MaxInt32, math.MinInt32, math.MaxInt64, math.MinInt64}
+
+// observe records what the configured sub-encoders append for this entry (by running the exported functions on a
+// recorder). The model computes the exact built-ins itself and ignores these; they remain the parameters for nil,
+// no-op, float and layout encoders.
+func (g *encGen) observe(ep *encEnt) {
+	e := *ep
+	defer func() { *ep = e }()
 	if g.rt.EncodeLevel != nil {
 		rec := &subRec{}
 		g.rt.EncodeLevel(zapcore.Level(e.Level), rec)
@@ -648,15 +697,102 @@ func (g *encGen) entry() encEnt {
 		g.rt.EncodeCaller(e.Caller.goCaller(), rec)
 		e.Caller.V, e.CallerC = rec.one()
 	}
-	return e
 }
 
 func (c encCaller) goCaller() zapcore.EntryCaller {
 	return zapcore.EntryCaller{Defined: c.Defined, File: string(unhx(c.File)), Line: c.Line, Function: string(unhx(c.Fn))}
 }
 
+// ---- systematic sub-encoder sweep -------------------------------------------------------------------------
+//
+// Emitted once per generation run, before the random ops: every int8 level under every level encoder (and the no-op /
+// nil fall-backs), every boundary duration under every duration encoder (as fields and as array elements), boundary
+// times under the integer time encoder, every caller shape × line under every caller encoder.
+
+var sweepDone = map[bool]bool{}
+
+func plainCfg() encCfg {
+	return encCfg{MK: hx([]byte("msg")), LK: hx([]byte("level")), TK: hx([]byte("ts")), NK: hx([]byte("logger")), CK: hx([]byte("caller")),
+		FK: "", SK: "", LvlEnc: "nil", TimeEnc: "nil", DurEnc: "nil", CallerEnc: "nil", NameEnc: "nil"}
+}
+
+func encSweep(r *Rand, console bool, emit func(op any)) {
+	mk := func(c encCfg, fill func(g *encGen, op *encOp)) {
+		g := &encGen{r: r, cfg: c, rt: buildConfig(c), depth: 1}
+		op := encOp{K: "entry", Console: console, Cfg: c, Ctx: [][]encField{}, Fields: []encField{}}
+		op.Ent = encEnt{Time: encTime{Zero: true, Nanos: "0"}, Msg: hx([]byte("m")), Caller: encCaller{Str: hx([]byte("undefined"))}}
+		fill(g, &op)
+		g.observe(&op.Ent)
+		emit(op)
+	}
+	// levels
+	for _, le := range []string{"lower", "capital", "color", "capitalColor", "noop", "nil"} {
+		for l := -128; l <= 127; l++ {
+			if (le == "noop" || le == "nil") && l%8 != 0 && (l < -3 || l > 7) {
+				continue
+			}
+			c := plainCfg()
+			c.LvlEnc = le
+			mk(c, func(g *encGen, op *encOp) { op.Ent.Level = l })
+		}
+	}
+	// durations: all boundaries in one op per encoder, once as fields and once as elements of an array
+	for _, de := range []string{"nanos", "millis", "string", "secs", "noop", "nil"} {
+		c := plainCfg()
+		c.DurEnc = de
+		mk(c, func(g *encGen, op *encOp) {
+			arr := encField{F: "arr", Key: hx([]byte("all")), Calls: []encCall{}}
+			for i, d := range boundaryDurs {
+				op.Fields = append(op.Fields, encField{F: "prim", Key: hx([]byte("d" + strconv.Itoa(i))), P: &encPrim{D: g.durOf(d)}, Calls: []encCall{}})
+				arr.Calls = append(arr.Calls, encCall{M: "app", P: &encPrim{D: g.durOf(d)}, Calls: []encCall{}})
+			}
+			op.Fields = append(op.Fields, arr)
+		})
+	}
+	// integer time encoder on boundary instants, as the entry time and as fields
+	for i := 0; i < 24; i++ {
+		c := plainCfg()
+		c.TimeEnc = "nanos"
+		mk(c, func(g *encGen, op *encOp) {
+			op.Ent.Time = *g.timeVal()
+			for j := 0; j < 4; j++ {
+				op.Fields = append(op.Fields, encField{F: "prim", Key: hx([]byte("t" + strconv.Itoa(j))), P: &encPrim{T: g.timeVal()}, Calls: []encCall{}})
+			}
+		})
+	}
+	// callers
+	for _, ce := range []string{"full", "short", "noop"} {
+		for _, file := range callerFiles {
+			for _, line := range callerLines {
+				c := plainCfg()
+				c.CallerEnc = ce
+				mk(c, func(g *encGen, op *encOp) {
+					op.Ent.Caller = encCaller{Defined: true, File: hx([]byte(file)), Line: line, Fn: hx([]byte("pkg.F")), Str: hx([]byte(file + ":" + strconv.Itoa(line)))}
+				})
+			}
+		}
+		c := plainCfg()
+		c.CallerEnc = ce
+		mk(c, func(g *encGen, op *encOp) {
+			op.Ent.Caller = encCaller{Defined: false, File: hx([]byte("a/b/c.go")), Line: 7, Str: hx([]byte("undefined"))}
+		})
+	}
+	// names
+	for _, ne := range []string{"full", "nil", "noop"} {
+		for _, name := range []string{"svc", "svc.sub", "a\"b", "\xff"} {
+			c := plainCfg()
+			c.NameEnc = ne
+			mk(c, func(g *encGen, op *encOp) { op.Ent.Name = hx([]byte(name)) })
+		}
+	}
+}
+
 // genEncOps emits n entry ops.
 func genEncOps(r *Rand, n int, console bool, hostilePct, faults, depth, maxFields int, emit func(op any)) {
+	if !sweepDone[console] && faults < 250 { // (C10's fault-injection streams do not need the sweep)
+		sweepDone[console] = true
+		encSweep(r, console, emit)
+	}
 	for i := 0; i < n; i++ {
 		g := &encGen{r: r, hostile: r.Intn(100) < hostilePct, faults: faults, depth: depth}
 		g.config(console)
